@@ -287,6 +287,9 @@ def run(ctx):
     # ... and a terminated string ends where its terminator (one code unit of its encoding) ends: the unit table (shared with C03.R2)
     from . import C03 as _C03
     _C03.unit_table_check(ctx, "C18.R8")
+    # the errors of the lowest layer: every stream helper raises its StreamError with the path it was given (shared with C06.R2) -- a helper that
+    # forgets it reports `path=None` for every construct that reaches the failing call
+    C06.helper_checks(ctx, "C18.R8")
     ctx.floor("C18.R8", 10)
 
     # ---- the message of an error must be buildable for any offending object, or no ConstructError (and no path) is raised at all (shared with C06.R10)
